@@ -724,6 +724,35 @@ def _collect_helpers(module, ref_funcs):
     return helpers
 
 
+class _UnrollClassLoops(ast.NodeTransformer):
+    """for c in (ClassA, ClassB): c.method(...)   ->   ClassA.method(...); ClassB.method(...)     (a literal tuple / list of class names, a body of plain
+    expression statements that use the loop variable only as a receiver, no break / continue / else)"""
+    def __init__(self):
+        self.count = 0
+
+    def _rewrite_block(self, stmts):
+        out = []
+        for st in stmts:
+            if isinstance(st, ast.For) and isinstance(st.target, ast.Name) and isinstance(st.iter, (ast.Tuple, ast.List)) and 1 <= len(st.iter.elts) <= 4 and not st.orelse \
+                    and all(isinstance(x, ast.Name) and x.id[:1].isupper() for x in st.iter.elts) and all(isinstance(b, ast.Expr) and isinstance(b.value, ast.Call) for b in st.body) \
+                    and not any(isinstance(x, ast.Name) and x.id == st.target.id and isinstance(x.ctx, ast.Store) for b in st.body for x in ast.walk(b)):
+                for elt in st.iter.elts:
+                    for b in st.body:
+                        out.append(_Subst({st.target.id: elt}).visit(_clone(b)))
+                self.count += 1
+                continue
+            out.append(st)
+        return out
+
+    def generic_visit(self, node):
+        super().generic_visit(node)
+        for fld in ('body', 'orelse', 'finalbody'):
+            b = getattr(node, fld, None)
+            if isinstance(b, list) and b and isinstance(b[0], ast.stmt):
+                setattr(node, fld, self._rewrite_block(b))
+        return node
+
+
 def _calls(func, name):
     for x in ast.walk(func):
         if isinstance(x, ast.Call):
@@ -794,4 +823,11 @@ def phase_b(repo, ref_funcs, ref_names, ref_shapes=None):
                             b.append(ast.copy_location(ast.Pass(), orig))
         ast.fix_missing_locations(m.tree)
         _annotate(m.tree, m)
+    for m in repo.modules.values():
+        u = _UnrollClassLoops()
+        m.tree = u.visit(m.tree)
+        if u.count:
+            applied['%s:<class loops unrolled>' % m.name] = u.count
+            ast.fix_missing_locations(m.tree)
+            _annotate(m.tree, m)
     return applied
